@@ -221,12 +221,13 @@ example : (Elem.mk [97] 0 0 [([120, 45, 121], [108, 49, 10, 108, 50, 34]), ([98]
   constructor <;> decide
 
 /- "Copies of element values are independent of their source" (third sentence of C16): in THIS file element values
-   are immutable Lean values, so the clause says nothing here.  It is stated about a heap model of `Xml::Variant` /
-   `Xml::Element` handles (Heap.lean: blocks with reference counts, copies share, `clear()` frees at zero, mutable
-   accessors clone unless the count is one) in PropsHeap.lean: `release_keeps_values`, `varlevel_step_independent`,
-   `assign_copies_value`, `independent_partial` (all histories of copy assignments, clears and text assignments — incl.
-   the in-place write when the count is one —, values of any depth and sharing).
-   OPEN: (there) the operations that write through an ELEMENT handle (mutable `toElement()` along a path and the edits) — modelled and run against the real code, not yet proved.  Reference-count exactness
-   is property C09 (area Rc). -/
+   are immutable Lean values, so the clause says nothing here.  It is stated and proved about a heap model of
+   `Xml::Variant` / `Xml::Element` handles (Heap.lean: blocks with reference counts, copies share, `clear()` frees at
+   zero, mutable accessors clone unless the count is one) in PropsHeap.lean: `step_independent`, `independent` (ALL
+   histories of copy assignments, clears, text assignments and writes through the mutable `toElement()` down any path
+   followed by any edit; values of any depth and sharing), `copy_then_any_history`, `assign_copies_value`,
+   `release_keeps_values`, `reach_inv`.
+   OPEN: (there) `refines` — the functional effect of an edit on the target variable itself; `release` fuel sufficiency.
+   Reference-count exactness is property C09 (area Rc). -/
 
 end Nstd.Xml
